@@ -175,3 +175,69 @@ def c01_rwguard(R):
             f"lshift + rshift bits: (A << 16) | LShR(A, 16) of a 64-bit A is no rotation and bits 32..47 are lost",
             construct="rotate_shift_mask_simplifier: operand width equals the rotation width",
         )
+
+
+def _simplifier_for(tree, op):
+    """the function the registry `_all_simplifiers` installs for `op`, through aliases"""
+    m = tree.mod(SIMP)
+    table = None
+    for st in m.tree.body:
+        if isinstance(st, ast.Assign) and any(isinstance(t, ast.Name) and t.id == "_all_simplifiers" for t in st.targets) and isinstance(st.value, ast.Dict):
+            table = st.value
+    if table is None:
+        return None
+    name = None
+    for k, v in zip(table.keys, table.values):
+        if isinstance(k, ast.Constant) and k.value == op and isinstance(v, ast.Name):
+            name = v.id
+    seen = set()
+    while name is not None and name not in seen:
+        seen.add(name)
+        if name in m.functions:
+            return name
+        alias = [st.value.id for st in m.tree.body if isinstance(st, ast.Assign) and any(isinstance(t, ast.Name) and t.id == name for t in st.targets) and isinstance(st.value, ast.Name)]
+        name = alias[0] if alias else None
+    return None
+
+
+@rule(
+    "C01.ashr",
+    props=("C01",),
+    floor=2,
+    family="GRD",
+    desc="the simplifier installed for the arithmetic right shift drops the shift (returns something that is no longer an "
+    "arithmetic shift of the operand) only for a zero amount or under a fact that the operand's top bit is 0 (a zero "
+    "extension, a Concat whose high part is the constant 0): vacated bits are copies of the sign, not zeros",
+)
+def c01_ashr(R):
+    tree = R.tree
+    m = tree.mod(SIMP)
+    name = _simplifier_for(tree, "__rshift__")
+    R.need(name is not None, "no simplifier registered for __rshift__")
+    fn = util.resolve_locals(tree.func_inlined(SIMP, name))
+    ps = [a.arg for a in fn.args.args]
+    R.need(len(ps) >= 2, f"{name} no longer takes (value, amount)")
+    val, amount = ps[0], ps[1]
+    n = 0
+    for r in _returns(fn):
+        v = r.value
+        keeps = any(isinstance(x, ast.BinOp) and isinstance(x.op, ast.RShift) for x in ast.walk(v)) or "__rshift__" in ast.unparse(v)
+        if keeps:
+            continue
+        n += 1
+        facts = _facts(r)
+        zero_amount = any(re.fullmatch(rf"\({amount} == 0\)\.is_true\(\)|{amount} == 0|claripy\.is_true\({amount} == 0\)", f) for f in facts)
+        msb_zero = any(re.fullmatch(rf"{val}\.op == 'ZeroExt'", f) for f in facts) or (
+            any(re.fullmatch(rf"{val}\.op == 'Concat'", f) for f in facts) and any(re.fullmatch(rf"\({val}\.args\[0\] == 0\)\.is_true\(\)|claripy\.is_true\({val}\.args\[0\] == 0\)", f) for f in facts)
+        )
+        R.check(
+            zero_amount or msb_zero,
+            m,
+            r,
+            "arithmetic shift dropped only for amount 0 or a non-negative operand",
+            f"{name} (installed for the arithmetic `>>`) returns `{norm(v)[:90]}` under {facts[-3:]} - neither a zero amount nor a "
+            f"fact that the operand's top bit is 0: an arithmetic shift fills with the sign bit, so Concat(edx, eax) >> 32 with the "
+            f"top bit of edx set is 0xffffffff..., not the zero extension of edx",
+            construct=f"{name}: arithmetic shift rewritten to `{norm(v)[:40]}`",
+        )
+    R.need(n >= 2, f"{name}: only {n} shift-dropping rewrites found")
